@@ -99,21 +99,21 @@ class NohBlackBoxEos(ExactSolver):
 
 class PlanarNohBlackBox(NohBlackBoxEos):
     def __init__(self,equation_of_state, initial_conditions = {'density': 1, 'velocity': -1, 'pressure': 0}):
-        initial_conditions['symmetry'] = 0
+        initial_conditions = dict(initial_conditions, symmetry=0) # do not modify the caller's (or the default) dictionary
         super().__init__(equation_of_state, initial_conditions)
     parameters = NohBlackBoxEos.parameters
     geometry = 1
 
 class CylindricalNohBlackBox(NohBlackBoxEos):
     def __init__(self, equation_of_state, initial_conditions = {'density': 1, 'velocity': -1, 'pressure': 0}):
-        initial_conditions['symmetry'] = 1
+        initial_conditions = dict(initial_conditions, symmetry=1) # do not modify the caller's (or the default) dictionary
         super().__init__(equation_of_state, initial_conditions)
     parameters = NohBlackBoxEos.parameters
     geometry = 2
 
 class SphericalNohBlackBox(NohBlackBoxEos):
     def __init__(self, equation_of_state, initial_conditions = {'density': 1, 'velocity': -1, 'pressure': 0}):
-        initial_conditions['symmetry'] = 2
+        initial_conditions = dict(initial_conditions, symmetry=2) # do not modify the caller's (or the default) dictionary
         super().__init__(equation_of_state, initial_conditions)
     parameters = NohBlackBoxEos.parameters
     geometry = 3
